@@ -1,5 +1,5 @@
 """Mapping property -> rules, with the explanation that goes into the evidence."""
-from .rules import tree_rules
+from .rules import tree_rules, order_rules, opt_rules
 
 RULES = {
     'R-LINK': tree_rules.r_link,
@@ -8,6 +8,12 @@ RULES = {
     'R-FRAME': tree_rules.r_frame,
     'R-STALE': tree_rules.r_stale,
     'R-PUNCTSEL': tree_rules.r_punctsel,
+    'R-ORDERED': order_rules.r_ordered,
+    'R-LEVELS': order_rules.r_levels,
+    'R-EXPNUM': order_rules.r_expnum,
+    'R-OPTKEY': opt_rules.r_optkey,
+    'DECOR': opt_rules.r_decor,
+    'R-SIBLING': opt_rules.r_sibling,
 }
 
 # minimum number of instances per rule, confirmed by hand on the tree the checker was built for
